@@ -446,6 +446,11 @@ func (lm *levelManager) compactL0() {
 		lm.levels[1].Remove(e)
 	}
 
+	// write new sstable before the old ones are deleted
+	if err := lm.writeTable(lm.fileName(1, th.levelIdx), tableBytes); err != nil {
+		lm.logger.Panicf("failed to write sstable: %v", err)
+	}
+
 	// delete old sstables from L0
 	for _, e := range l0Tables {
 		if err := os.Remove(lm.fileName(0, e.Value.(tableHandle).levelIdx)); err != nil {
@@ -457,22 +462,6 @@ func (lm *levelManager) compactL0() {
 		if err := os.Remove(lm.fileName(1, e.Value.(tableHandle).levelIdx)); err != nil {
 			lm.logger.Panicf("failed to delete old sstable: %v", err)
 		}
-	}
-
-	// write new sstable
-	fd, err := os.OpenFile(lm.fileName(1, th.levelIdx), os.O_CREATE|os.O_RDWR|os.O_TRUNC, 0600)
-	if err != nil {
-		lm.logger.Panicf("failed to open sstable: %v", err)
-	}
-	defer func() {
-		if err = fd.Close(); err != nil {
-			lm.logger.Errorf("failed to close file: %v", err)
-		}
-	}()
-
-	_, err = fd.Write(tableBytes)
-	if err != nil {
-		lm.logger.Panicf("failed to write sstable: %v", err)
 	}
 }
 
@@ -531,6 +520,11 @@ func (lm *levelManager) compactLN(n int) {
 		lm.levels[n+1].Remove(e)
 	}
 
+	// write new sstable before the old ones are deleted
+	if err := lm.writeTable(lm.fileName(n+1, th.levelIdx), tableBytes); err != nil {
+		lm.logger.Panicf("failed to write sstable: %v", err)
+	}
+
 	// delete old sstables from LN
 	if err := os.Remove(lm.fileName(n, lnTable.Value.(tableHandle).levelIdx)); err != nil {
 		lm.logger.Panicf("failed to delete old sstable: %v", err)
@@ -540,22 +534,6 @@ func (lm *levelManager) compactLN(n int) {
 		if err := os.Remove(lm.fileName(n+1, e.Value.(tableHandle).levelIdx)); err != nil {
 			lm.logger.Panicf("failed to delete old sstable: %v", err)
 		}
-	}
-
-	// write new sstable
-	fd, err := os.OpenFile(lm.fileName(n+1, th.levelIdx), os.O_CREATE|os.O_RDWR|os.O_TRUNC, 0600)
-	if err != nil {
-		lm.logger.Panicf("failed to open sstable: %v", err)
-	}
-	defer func() {
-		if err = fd.Close(); err != nil {
-			lm.logger.Errorf("failed to close file: %v", err)
-		}
-	}()
-
-	_, err = fd.Write(tableBytes)
-	if err != nil {
-		lm.logger.Panicf("failed to write sstable: %v", err)
 	}
 }
 
